@@ -26,7 +26,7 @@
      not MustModify).                                                                                  *)
 EXTENDS Naturals, Integers, Sequences, FiniteSets, TLC, Json, FiniteSetsExt, SequencesExt
 
-CONSTANTS Families,   \* subset of {"single", "pair", "size", "limit", "cfg", "usage"}; {} for trace validation (no enumeration)
+CONSTANTS Families,   \* subset of {"single", "pair", "size", "limit", "cfg", "usage", "variant"}; {} for trace validation (no enumeration)
           Wide        \* TRUE: thorough-tier bounds
 
 TmpPrs == {"TMP", "PRS"}
@@ -171,7 +171,7 @@ Modes == {[cmd |-> "lint", feu |-> FALSE, nofail |-> FALSE], [cmd |-> "lint", fe
           [cmd |-> "fix", feu |-> FALSE, nofail |-> FALSE], [cmd |-> "fix", feu |-> TRUE, nofail |-> FALSE],
           [cmd |-> "format", feu |-> FALSE, nofail |-> FALSE]}
 Sc(fam, m, files, limkind, skipfail, runaway, cfgsrc, cfgitem, procs) ==
-   [family |-> fam, usage |-> "none", cmd |-> m.cmd, feu |-> m.feu, nofail |-> m.nofail, files |-> files, limkind |-> limkind,
+   [family |-> fam, usage |-> "none", vlimit |-> 0, cmd |-> m.cmd, feu |-> m.feu, nofail |-> m.nofail, files |-> files, limkind |-> limkind,
     skipfail |-> skipfail, runaway |-> runaway, cfgsrc |-> cfgsrc, cfgitem |-> cfgitem, procs |-> procs]
 
 NoFail == [cmd |-> "lint", feu |-> FALSE, nofail |-> TRUE]
@@ -205,12 +205,19 @@ CfgOK(s) == LET f == s.files[1] IN
             /\ s.cfgitem = "warnings" => (f.esup = "warning" \/ f.lsup = "warning")
             /\ s.cfgitem = "ignore" => (f.esup = "ignore" \/ f.lsup = "ignore")
 
+\* render_variant_limit = 1 (the documented way to switch variant linting off) must not change any verdict: the
+\* contract does not mention it, so vlimit is NOT a field of the run value R; it only reaches the concretiser.
+\* (A templater error found while rendering the one permitted variant is still an error of the file.)
+VarFiles == {f \in AllFiles : f.err = "tmp_soft"} \cup {Clean, FixLive, UnfLive, BlkFixLive, FatalNoqa}
+Variant == {[Sc("variant", m, <<f>>, "none", FALSE, 0, "root", "all", 1) EXCEPT !.vlimit = 1] :
+               m \in Modes \ {NoFail}, f \in VarFiles}
 UsageKinds == {"missing_path", "unknown_dialect_cfg", "unknown_dialect_opt", "no_dialect", "bad_option", "bad_templater", "format_rules"}
 Usage  == {[Sc("usage", m, <<f>>, "none", FALSE, 0, "root", "all", 1) EXCEPT !.usage = u] :
               m \in Modes, f \in {Clean, FixLive}, u \in UsageKinds}
 UsageOK(s) == (s.usage = "format_rules") => (s.cmd = "format")
 FamilyOf(fam) == CASE fam = "single" -> Single
                    [] fam = "usage"  -> {s \in Usage : UsageOK(s)}
+                   [] fam = "variant" -> Variant
                    [] fam = "pair"   -> {s \in Pair : PairOK(s)}
                    [] fam = "size"   -> {s \in Size : SizeOK(s)}
                    [] fam = "limit"  -> Limit
@@ -260,7 +267,7 @@ Record(s) ==
    LET A == AlgoRun(s)
        AS == AlgoStrRun(s)
        one == Len(s.files) = 1
-   IN [family |-> s.family, usage |-> s.usage, cmd |-> s.cmd, feu |-> s.feu, nofail |-> s.nofail, skipfail |-> s.skipfail,
+   IN [family |-> s.family, usage |-> s.usage, vlimit |-> s.vlimit, cmd |-> s.cmd, feu |-> s.feu, nofail |-> s.nofail, skipfail |-> s.skipfail,
        limkind |-> s.limkind, runaway |-> s.runaway, cfgsrc |-> s.cfgsrc, cfgitem |-> s.cfgitem, procs |-> s.procs,
        files |-> s.files,
        allowed |-> J({VJ(Verdict(RunOf(s, r))) : r \in Readings(s)}),
